@@ -57,6 +57,7 @@ TokenVerdict(tr) ==
      ELSE IF tr.v312 /\ fstr THEN "SignificantTokensAgree:fstring-3.12"
      ELSE IF tr.ff THEN "SignificantTokensAgree:formfeed-in-indentation"
      ELSE IF tr.bs THEN "SignificantTokensAgree:backslash-continuation-at-line-start"
+     ELSE IF tr.bk THEN "SignificantTokensAgree:break-keyword-inside-brackets"
      ELSE "SignificantTokensAgree"
 
 SyntaxVerdict(tr) ==
@@ -69,8 +70,10 @@ FactsVerdict(tr) ==
   LET kinds == DOMAIN tr.pfacts
       bad == {k \in kinds : {tr.pfacts[k][i] : i \in 1..Len(tr.pfacts[k])} # {tr.afacts[k][i] : i \in 1..Len(tr.afacts[k])}}
   IN IF tr.raised THEN "HelpersNeverRaise"
-     ELSE IF bad = {} THEN "ok"
-     ELSE "FactsAgree:" \o (CHOOSE k \in bad : TRUE)
+     ELSE IF bad # {} THEN "FactsAgree:" \o (CHOOSE k \in bad : TRUE)
+     (* the helpers are pure queries: the same extraction after asking every other question gives the same facts *)
+     ELSE IF ~tr.stable THEN "FactsStableAcrossQueries"
+     ELSE "ok"
 
 Batch == JsonDeserialize("batch.json")
 Traces == Batch.traces
